@@ -18,7 +18,7 @@ META = dict(
            "contents in -1..1 (set/hash realisation), enum members, dataclass instances built with make_unchecked alone and nested in "
            "List/Dict/Optional/Union/another dataclass; Fraction/Decimal/date/datetime/time/path/compiled pattern chosen by a symbolic "
            "index from a concrete vocabulary",
-    configs="56 types of the shared table x idempotence; 38 kinds of natively built values (incl. conditioned Fraction/date/Decimal/Set) x convert + dataclass constructor (Holder); "
+    configs="56 types of the shared table x idempotence; 40 kinds of natively built values (incl. conditioned Fraction/date/Decimal/Set) x convert + dataclass constructor (Holder); "
             "Range (3 constructions) + thorough tier: 24 type expressions of nesting depth 3 drawn from the grammar with VERIF_SEED (props/gen_types.py), type-directed values with 3 symbolic leaf slots, under this property's oracle",
     stubs=[],
     outside=["symbolic contents of Fraction/Decimal/datetime/path/pattern values (stdlib parsers realise them)",
